@@ -29,9 +29,9 @@ func KEYCACHE(h *rt.H) {
 	typed := h.Choose("typedTarget", 0, 1) == 1
 
 	type result struct {
-		any   [2]map[string]interface{}
-		ints  [2]map[string]int
-		err   error
+		any  [2]map[string]interface{}
+		ints [2]map[string]int
+		err  error
 	}
 	run := func(cache bool) *result {
 		r := &result{}
